@@ -394,6 +394,22 @@ func treeGen(seed int64, n int, args []string, out *json.Encoder) {
 			if kind == "reg" && rng.Intn(10) == 0 && len(c.H) > 0 {
 				rt = c.H[rng.Intn(len(c.H))].R // duplicate
 			}
+			if kind == "reg" && rng.Intn(6) == 0 && len(rgs) > 0 {
+				// a second, different match-all at the position of an existing final match-all, as the OPTIONAL last
+				// segment: must be rejected, and its short form must not become reachable
+				src := rgs[rng.Intn(len(rgs))]
+				if n := len(src.segs); n >= 2 && src.segs[n-1].seg.K == "A" {
+					na := &nameAlloc{n: 70 + rng.Intn(20)}
+					alt := genAll(rng, na)
+					alt.seg.Opt = true
+					rg = routeGen{segs: append(append([]segGen{}, src.segs[:n-1]...), alt)}
+					rg.r.Gram = true
+					for _, sg := range rg.segs {
+						rg.r.Segs = append(rg.r.Segs, sg.seg)
+					}
+					rt = rg.r
+				}
+			}
 			call++
 			m := pick(rng, methods)
 			if kind == "reg" && rng.Intn(25) == 0 {
@@ -489,6 +505,10 @@ func treeGen(seed int64, n int, args []string, out *json.Encoder) {
 					raw = "/" + strings.Join(mutatePath(rng, rgs[rng.Intn(len(rgs))].instance(rng)), "/")
 				}
 				rq := treeReq{M: m, Raw: encBytes(raw), H: randReqHdr(rng)}
+				if rng.Intn(3) == 0 && len(rgs) > 0 {
+					// a middleware serves another route's instance as a nested request before this chain goes on
+					rq.Nest = encBytes("/" + strings.Join(rgs[rng.Intn(len(rgs))].instance(rng), "/"))
+				}
 				c.Reqs = append(c.Reqs, rq, rq) // every request twice: the outcome is a function of the request
 			}
 		case "url":
